@@ -5,6 +5,7 @@ import (
 	"fmt"
 	"go/types"
 	"math"
+	"sort"
 	"strings"
 
 	"golang.org/x/tools/go/ssa"
@@ -214,6 +215,145 @@ func (c *Ctx) lockOf(p PtrV) *lockState {
 	return l
 }
 
+// ---------- lock order ----------
+//
+// Every blocking Lock/RLock taken while other locks are held adds an edge held -> taken between lock classes
+// (the static identity of a lock: the type that declares it and the field path, not the object), together with
+// the call stack of the first occurrence. After the exploration the union of the edges over all explored paths
+// is searched for cycles: two code paths that take two locks in opposite orders can deadlock when they run
+// concurrently (for RWMutex read locks as well: a writer queued between the two readers blocks the second one).
+
+type heldLock struct {
+	key, class string
+	read       bool
+	// hdepth is the number of harness frames on the stack when the lock was taken. Interleaving harnesses run a
+	// second operation from a hook inside the first one, on the same engine stack; the locks the outer operation
+	// holds belong to another goroutine and must not order the inner operation's locks.
+	hdepth int
+}
+
+func (c *Ctx) harnessDepth() int {
+	n := 0
+	for fr := c.cur; fr != nil; fr = fr.caller {
+		if c.isHarnessFn(fr.fn) {
+			n++
+		}
+	}
+	return n
+}
+
+type lockEdge struct {
+	From, To       string
+	FromRead, Read bool
+	Where          string
+}
+
+func (c *Ctx) lockClass(p PtrV) string {
+	if p.obj == nil {
+		return "?"
+	}
+	t := p.obj.t
+	var sb strings.Builder
+	root := ""
+	for _, i := range p.path {
+		if t == nil {
+			break
+		}
+		switch u := t.Underlying().(type) {
+		case *types.Struct:
+			if n, ok := t.(*types.Named); ok {
+				// restart the name at the innermost named struct: the class of a lock does not depend on where the
+				// struct that declares it is embedded
+				root = n.Obj().Pkg().Name() + "." + n.Obj().Name()
+				sb.Reset()
+			}
+			if i < u.NumFields() {
+				sb.WriteString("." + u.Field(i).Name())
+				t = u.Field(i).Type()
+			} else {
+				t = nil
+			}
+		case *types.Array:
+			sb.WriteString("[]")
+			t = u.Elem()
+		case *types.Slice:
+			sb.WriteString("[]")
+			t = u.Elem()
+		case *types.Pointer:
+			t = u.Elem()
+		default:
+			t = nil
+		}
+	}
+	if root == "" {
+		if n, ok := p.obj.t.(*types.Named); ok {
+			root = n.Obj().Pkg().Name() + "." + n.Obj().Name()
+		} else {
+			root = p.obj.t.String()
+		}
+	}
+	return root + sb.String()
+}
+
+func (c *Ctx) noteAcquire(p PtrV, read bool) {
+	class := c.lockClass(p)
+	key := p.key()
+	hd := c.harnessDepth()
+	for _, h := range c.held {
+		if h.key == key || h.class == class || h.hdepth != hd {
+			continue
+		}
+		c.shared.addLockEdge(lockEdge{From: h.class, To: class, FromRead: h.read, Read: read, Where: c.where()})
+	}
+	c.held = append(c.held, heldLock{key: key, class: class, read: read, hdepth: hd})
+}
+
+func (c *Ctx) noteRelease(p PtrV, read bool) {
+	key := p.key()
+	for i := len(c.held) - 1; i >= 0; i-- {
+		if c.held[i].key == key && c.held[i].read == read {
+			c.held = append(c.held[:i], c.held[i+1:]...)
+			return
+		}
+	}
+}
+
+func (s *Shared) addLockEdge(e lockEdge) {
+	s.mu.Lock()
+	defer s.mu.Unlock()
+	if s.lockEdges == nil {
+		s.lockEdges = map[string]lockEdge{}
+	}
+	k := e.From + "->" + e.To
+	if _, ok := s.lockEdges[k]; !ok {
+		s.lockEdges[k] = e
+	}
+}
+
+// lockCycles returns one description per cycle of length 2 in the lock-order graph (longer cycles are reported
+// through their 2-cycles or not at all: stated bound of the check).
+func (s *Shared) lockCycles() []string {
+	var out []string
+	for k, e := range s.lockEdges {
+		if e.From >= e.To {
+			continue
+		}
+		if r, ok := s.lockEdges[e.To+"->"+e.From]; ok {
+			mode := func(b bool) string {
+				if b {
+					return "R"
+				}
+				return "W"
+			}
+			_ = k
+			out = append(out, fmt.Sprintf("%s(%s) then %s(%s) at%s  ||  %s(%s) then %s(%s) at%s",
+				e.From, mode(e.FromRead), e.To, mode(e.Read), e.Where, r.From, mode(r.FromRead), r.To, mode(r.Read), r.Where))
+		}
+	}
+	sort.Strings(out)
+	return out
+}
+
 func (c *Ctx) lockMisuse(msg string) {
 	vec := []uint64(nil)
 	if c.solver != nil {
@@ -270,7 +410,7 @@ func init() {
 			c.lockMisuse("Lock of a lock already held on this goroutine (self-deadlock)")
 		}
 		l.writer = true
-		c.lockOrder = append(c.lockOrder, "L:"+l.name)
+		c.noteAcquire(a[0].(PtrV), false)
 		return nil
 	})
 	reg("(*sync.Mutex).Unlock (*sync.RWMutex).Unlock", func(c *Ctx, fn *ssa.Function, a []Value) Value {
@@ -279,6 +419,7 @@ func init() {
 			c.lockMisuse("Unlock of an unlocked lock")
 		}
 		l.writer = false
+		c.noteRelease(a[0].(PtrV), false)
 		return nil
 	})
 	reg("(*sync.Mutex).TryLock (*sync.RWMutex).TryLock", func(c *Ctx, fn *ssa.Function, a []Value) Value {
@@ -287,6 +428,7 @@ func init() {
 			return c.tb.ff
 		}
 		l.writer = true
+		c.held = append(c.held, heldLock{key: a[0].(PtrV).key(), class: c.lockClass(a[0].(PtrV)), hdepth: c.harnessDepth()})
 		return c.tb.tt
 	})
 	reg("(*sync.RWMutex).RLock", func(c *Ctx, fn *ssa.Function, a []Value) Value {
@@ -295,7 +437,7 @@ func init() {
 			c.lockMisuse("RLock while holding the write lock (self-deadlock)")
 		}
 		l.readers++
-		c.lockOrder = append(c.lockOrder, "R:"+l.name)
+		c.noteAcquire(a[0].(PtrV), true)
 		return nil
 	})
 	reg("(*sync.RWMutex).RUnlock", func(c *Ctx, fn *ssa.Function, a []Value) Value {
@@ -304,6 +446,7 @@ func init() {
 			c.lockMisuse("RUnlock of a lock not read-locked")
 		}
 		l.readers--
+		c.noteRelease(a[0].(PtrV), true)
 		return nil
 	})
 	reg("(*sync.RWMutex).TryRLock", func(c *Ctx, fn *ssa.Function, a []Value) Value {
@@ -312,6 +455,7 @@ func init() {
 			return c.tb.ff
 		}
 		l.readers++
+		c.held = append(c.held, heldLock{key: a[0].(PtrV).key(), class: c.lockClass(a[0].(PtrV)), read: true, hdepth: c.harnessDepth()})
 		return c.tb.tt
 	})
 	reg("(*sync.Once).Do", func(c *Ctx, fn *ssa.Function, a []Value) Value {
